@@ -599,6 +599,14 @@ class Executor:
             except Stop as e:
                 cur.outcome = ('stop', e.kind, e.info if e.info is not None else cur.where()); succ = [cur]
             for n in succ:
+                if n.outcome is not None and n.world.get('_cap_over') and n.outcome[0] in ('return', 'merge-return') and not s.blind:
+                    # string-capacity assumptions made along this path: they must be unsatisfiable together with the path condition
+                    ov = b_or(*n.world['_cap_over'])
+                    r_, _m = s.check(n.pc, ov, want_model=False)
+                    if r_ == 'sat': n.outcome = ('stop', 'bound:strcap', 'a string outgrew the capacity bound on this path')
+                    elif r_ == 'unknown': n.outcome = ('stop', 'solver-unknown', 'string capacity obligation')
+                    else: n.pc.append(b_not(ov))
+                    n.world['_cap_over'] = ()
                 if n.outcome is not None:
                     s.stats['paths'] += 1
                     if on_terminal is not None:
